@@ -60,6 +60,10 @@ func main() {
 		checks.GenWorker(os.Args[2:])
 		return
 	}
+	if id == "--fmt-worker" {
+		checks.FmtWorker(os.Args[2:])
+		return
+	}
 	if id == "--seq-worker" {
 		checks.SeqWorker(os.Args[2:])
 		return
